@@ -1013,6 +1013,33 @@ def gen_fields(repo):
     for file in sorted(srcs):
         for m in re.finditer(r"^[ \t]*impl\b[^{;]*\bClone\s+for\s+([A-Za-z_]\w*)", srcs[file], re.M):
             manual.append(m.group(1))
+            # a hand-written impl may also override `clone_from`: every statement must copy the same-named field
+            src2 = srcs[file]
+            kk = src2.index("{", m.start())
+            ibody = src2[kk + 1 : match_close(src2, kk)]
+            fns = re.findall(r"\bfn\s+([A-Za-z_]\w*)", ibody)
+            if sorted(set(fns)) not in (["clone"], ["clone", "clone_from"]):
+                raise Unknown("impl Clone for %s defines %s (only clone / clone_from are modelled)" % (m.group(1), fns))
+            if "clone_from" in fns:
+                cm = re.search(r"\bfn\s+clone_from\s*\(\s*&mut\s+self\s*,\s*(\w+)\s*:\s*&Self\s*\)\s*\{", ibody)
+                if not cm:
+                    raise Unknown("impl Clone for %s: clone_from signature not understood" % m.group(1))
+                srcv = cm.group(1)
+                cb = ibody[cm.end() - 1 :]
+                cbody = cb[1 : match_close(cb, 0)]
+                copied = []
+                for st in split_top(cbody, ";"):
+                    b = squash(st)
+                    if not b:
+                        continue
+                    mm = re.fullmatch(r"self\.(\w+)\.clone_from\(&%s\.(\w+)\)" % srcv, b) or re.fullmatch(r"self\.(\w+)=%s\.(\w+)(?:\.clone\(\))?" % srcv, b)
+                    if not mm or mm.group(1) != mm.group(2):
+                        raise Unknown("impl Clone for %s: hand-written clone_from does not copy verbatim: `%s` (dst.clone_from(&src) must end equal to src.clone(); e.g. keeping the destination's larger cutoff is not a copy)" % (m.group(1), " ".join(st.split())))
+                    copied.append(mm.group(1))
+                allf = [f for f, _, _ in models[m.group(1)].fields]
+                if sorted(copied) != sorted(allf):
+                    raise Unknown("impl Clone for %s: clone_from copies %s but the struct has %s" % (m.group(1), copied, allf))
+                report.append({"conversion": m.group(1) + ".clone_from", "field": "*", "kind": "copied", "source": "clone_from"})
     if sorted(manual) != ["GraphState", "Qmc", "QmcIsingGraph"]:
         raise Unknown("manual Clone impls in the crate are %s; modelled: GraphState, Qmc, QmcIsingGraph" % sorted(manual))
     out.append("/-- every hand-written `impl Clone` in the crate (all modelled above) -/")
@@ -1129,6 +1156,14 @@ def gen_fields(repo):
     out.append("/-- the guard under which `tempering_step` and `parallel_tempering_step` call `make_ham_equalities` -/")
     out.append("def TemperingContainer.rebuildGuard {F64 R Q : Type} (tc : TemperingContainer F64 R Q) : Bool :=\n  %s\n" % guards[0])
     report.append({"conversion": "TemperingContainer.tempering_step", "field": "graph_ham_eq_a/b", "kind": "guard(%s)" % guards[0], "source": "tempering_step / parallel_tempering_step"})
+
+    # the two swap routines: draw order and zip structure (modelled by hand as performSwaps / parPerformSwaps)
+    want_ser = "assert_eq!(graphs.len()%2,0);ifgraphs.is_empty(){0}else{graphs.iter_mut().chunks(2).into_iter().map(unwrap_chunk).map(|x|(x,rng.gen_range(0...1.0))).zip(hameqs.iter()).map(|(((ga,gb),p),eq)|ifswap_on_chunks(ga,gb,p,!eq){1}else{0}).sum()}"
+    want_par = "assert_eq!(graphs.len()%2,0);ifgraphs.is_empty(){0}else{letprobs=(0..graphs.len()/2).map(|_|rng.gen_range(0...1.0)).collect::<Vec<_>>();graphs.par_iter_mut().chunks(2).map(|g|unwrap_chunk(g.into_iter())).zip(probs.into_par_iter()).zip(hameqs.into_par_iter()).map(|(((ga,gb),p),eq)|ifswap_on_chunks(ga,gb,p,!eq){1}else{0}).sum()}"
+    for fname, want in (("perform_swaps", want_ser), ("parallel_perform_swaps", want_par)):
+        fbody, _ = find_fn_unique(tsrc, fname, T.st.file)
+        if squash(fbody) != want:
+            raise Unknown("%s changed shape (modelled: one uniform per pair of the sub-slice — ALL graphs.len()/2 of them, drawn in pair order, zipped with the cached equalities): `%s`" % (fname, " ".join(fbody.split())))
 
     # the phases take a cache out and put the same vector back (shape-checked; modelled by hand as "unchanged")
     for fname, fld, sub, sw, recv in (("tempering_a", "a", "first", "perform_swaps", "self"), ("tempering_b", "b", "second", "perform_swaps", "self"),
